@@ -106,7 +106,7 @@ impl Apply for CursiveAdjustment<'_> {
 
         // If parent was attached to child, separate them.
         // https://github.com/harfbuzz/harfbuzz/issues/2469
-        if pos[parent].attach_chain() == -pos[child].attach_chain() {
+        if pos[parent].attach_chain() == pos[child].attach_chain().wrapping_neg() {
             pos[parent].set_attach_chain(0);
 
             if direction.is_horizontal() {
@@ -157,7 +157,7 @@ fn reverse_cursive_minor_offset(
             pos[j].x_offset = -pos[i].x_offset;
         }
 
-        pos[j].set_attach_chain(-chain);
+        pos[j].set_attach_chain(chain.wrapping_neg());
         pos[j].set_attach_type(attach_type);
     }
 }
